@@ -17,7 +17,15 @@ import (
 	"verif/harness/chain"
 )
 
+// exportGenesis runs the module's export; a panic inside it (state that the module's own readers cannot decode any
+// more) is caught and handed to the caller through lastExportPanic instead of killing the monitor process.
 func exportGenesis(ctx sdk.Context, c *chain.Chain) (gs *ct.GenesisState) {
+	defer func() {
+		if p := recover(); p != nil {
+			c.LastExportPanic = fmt.Sprint(p)
+			gs = ct.DefaultGenesis()
+		}
+	}()
 	return cctp.ExportGenesis(ctx, c.Keeper)
 }
 
@@ -158,9 +166,22 @@ func compareStates(m, o *State) []stateDiff {
 // afterBlock is the state tap: semantic state vs model, exported-list multiplicities, scalar queries.
 func (e *Engine) afterBlock(tx *Tx, rep *Report) {
 	rc := e.Rc
+	e.C.LastExportPanic = ""
 	obs := e.Observe()
 	rc.Cov.Assert("state-tap.semantic-compare")
 	kind := kindsOf(rep)
+	if e.C.LastExportPanic != "" {
+		props := []string{"C20", "C17", "C19"}
+		for _, ex := range rep.Exp {
+			for _, p := range kindFailProps(ex.Kind) {
+				props = addProp(props, p)
+			}
+		}
+		e.viol(props, "crash-tap/export-panic", "panic:ExportGenesis:after:"+kind,
+			fmt.Sprintf("after %s (success=%v) the genesis export panics - the stored state can no longer be read: %s", kind, rep.OK, trunc(e.C.LastExportPanic, 300)), e.caseOf(tx, ""))
+		e.C.LastExportPanic = ""
+		return // nothing sensible to compare; the model keeps its view
+	}
 	for _, df := range compareStates(e.M, obs) {
 		props := compProps[df.Comp]
 		for _, ex := range rep.Exp {
